@@ -99,7 +99,14 @@ class Execution:
             rt = self.rt
             pk = 0
             if task.cancelled():
-                kind, v = ('cancelled' if r in self.cancelled else 'raised'), ('cancelled',)
+                # the CancelledError that ended chart.run: the engine's / the caller's (no token), or one that a node
+                # body raised on its own (class CE, carries its token)
+                try:
+                    task.exception()
+                    cex = None
+                except asyncio.CancelledError as ce:
+                    cex = ce
+                kind, v = ('cancelled' if r in self.cancelled else 'raised'), (rt.err_token(cex) if cex is not None else ('cancelled',))
             else:
                 ex = task.exception()
                 if ex is not None:
